@@ -11,6 +11,7 @@ import GenlmModel.Model.IncCky
 import GenlmModel.Model.UCycle
 import GenlmModel.Model.FsmWfsa
 import GenlmModel.Model.Earley
+import GenlmModel.Model.Compose
 import GenlmModel.Model.Cert
 import GenlmModel.Model.Linear
 import GenlmModel.Generated.Semiring
@@ -248,6 +249,26 @@ def opEarley (j : Json) : E Json := do
   pure (Json.mkObj [("cols", .arr (cols.map colJ).toArray), ("call", Wt.toJson (earleyCall G order x)),
     ("p_next", pairsToJson (earleyPNext G order x))])
 
+def cxToSx (S : Sx) : CX Sx → Sx
+  | .sym s => s
+  | .eps => Sx.eps
+  | .other => Sx.tag "Other" [S]
+
+def csymToSx (S : Sx) : CSym Sx Sx → Sx
+  | .term b => b
+  | .item i x j => Sx.tup [i, cxToSx S x, j]
+  | .start => S
+
+variable [DecidableEq K] in
+/-- {"op":"compose_cfg","cfg":…,"fst":…} → the grammar `cfg @ fst` of the mirror model (weighted Bar-Hillel with ε handling) -/
+def opComposeCfg (j : Json) : E Json := do
+  let G : CFG Sx K ← cfgOfJson (← getField j "cfg")
+  let T : FST Sx Sx K ← fstOfJson (← getField j "fst")
+  let C := composeShared G T
+  let f := csymToSx G.S
+  let G' : CFG Sx K := ⟨f C.S, C.V.map f, C.rules.map fun r => ⟨r.w, f r.head, r.body.map f⟩⟩
+  pure (cfgToJson G')
+
 def opZn (j : Json) : E Json := do
   let G : CFG Sx K ← cfgOfJson (← getField j "cfg")
   opZnG G j
@@ -412,6 +433,7 @@ def runOpK [DecidableEq K] [HasInv K] [HasStar K] (op : String) (j : Json) : E J
   | "mask" => opMask (K := K) j
   | "inccky" => opIncCky (K := K) j
   | "earley" => opEarley (K := K) j
+  | "compose_cfg" => opComposeCfg (K := K) j
   | "pn" => opPn (K := K) j
   | "tpn" => opTpn (K := K) j
   | "fst_op" => opFstOp (K := K) j
